@@ -123,6 +123,7 @@ type FS struct {
 	IOScript  func(op string, idx int, off int64, n int) (limit int, err error)
 	ioIdx     int
 	maxInside int
+	fired     *Call
 	attachErr error
 	// ErrWrap converts an errno into the error value the backend returns.
 	ErrWrap func(errno int) error
@@ -206,6 +207,10 @@ func (fs *FS) enter(h *Handle, c *Call) *Fault {
 		if f, ok := fs.faultArmedIdx[fs.armedSeq]; ok {
 			fault = &f
 		}
+	}
+	if fault != nil {
+		cp := *c
+		fs.fired = &cp
 	}
 	if c.Op == "Close" && h != nil {
 		for o := range fs.active {
@@ -333,6 +338,13 @@ func (fs *FS) FaultAtArmed(k int, f Fault) {
 	fs.mu.Lock()
 	fs.faultArmedIdx[k] = f
 	fs.mu.Unlock()
+}
+
+// Fired returns the call at which an injected fault struck (nil if none yet).
+func (fs *FS) Fired() *Call {
+	fs.mu.Lock()
+	defer fs.mu.Unlock()
+	return fs.fired
 }
 
 // ArmedCalls returns the number of calls made while armed.
@@ -1132,6 +1144,12 @@ func (h *Handle) Renamed(newDir p9.File, newName string) {
 		c.Other = nd.ID
 	}
 	f := h.fs.enter(h, c)
+	if f != nil && !f.Panic {
+		// Renamed cannot fail: an injected error has nowhere to go
+		h.fs.mu.Lock()
+		h.fs.fired = nil
+		h.fs.mu.Unlock()
+	}
 	if nd != nil {
 		nd.mu.Lock()
 		pp := nd.path
